@@ -1066,6 +1066,19 @@ class PathSum(object):
         if isinstance(e, ast.Subscript):
             out = []
             for s, (b, k) in self.ev_list([e.value, e.slice], st, fi):
+                if s.outcome is None and self._table_lookup(b, k):
+                    # D[k] with a literal table and a run-time key: one path
+                    # per entry (k == key), and KeyError when none matches
+                    for s2, v in self.lookup(b, k, s, e):
+                        if v is None:
+                            s2.outcome = ('raise', ('call', ('builtin',
+                                                             'KeyError'),
+                                                    (k,), (), next(self.uid)),
+                                          e)
+                            out.append((s2, BOT))
+                        else:
+                            out.append((s2, v))
+                    continue
                 out.append((s, self.index(b, k)))
             return out
         if isinstance(e, ast.Slice):
@@ -1341,6 +1354,35 @@ class PathSum(object):
                 out.append(op('str', v))
         return self.concat(out)
 
+    @staticmethod
+    def _table_lookup(b, k):
+        return b[0] == 'dict' and 0 < len(b[1]) <= 24 and all(
+            is_const(a) for a, _ in b[1]) and not is_const(k) and \
+            k is not BOT
+
+    def lookup(self, table, k, st, node):
+        """[(state, value or None)]: the entry of a literal table selected
+        by a run-time key, as decisions `k == key` (the same atoms an
+        if/elif chain on k would produce); None = no entry."""
+        out = []
+        cur = st
+        for key, val in table[1]:
+            a, pol = self.atom(op('==', k, key))
+            d = self.decide(a, cur)
+            if d is not None:
+                if d == pol:
+                    out.append((cur, val))
+                    return out
+                continue
+            hit = cur.fork()
+            hit.conds.append((a, pol, node))
+            hit.cond_held.append(tuple(hit.held))
+            out.append((hit, val))
+            cur.conds.append((a, not pol, node))
+            cur.cond_held.append(tuple(cur.held))
+        out.append((cur, None))
+        return out
+
     def index(self, b, k):
         if b is BOT or k is BOT:
             return BOT
@@ -1448,8 +1490,9 @@ class PathSum(object):
         if isinstance(ent, External):
             return ('ext', ent.dotted)
         if isinstance(ent, tuple) and ent[0] == 'value':
-            v = self._literal(ent[1])
-            if v is not None:
+            v = self._literal(ent[1], ent[2])
+            if v is not None and not (v[0] in ('dict', 'list', 'set')
+                                      and self._mutated(ent[2], nm)):
                 return v
             return ('glob', ent[2].name, nm)
         if ent is None:
@@ -1459,19 +1502,77 @@ class PathSum(object):
             return sym(nm)
         return sym(nm)
 
-    def _literal(self, e):
-        """Constant term of a literal module/class level value."""
+    def _mutated(self, module, name):
+        """Some code of the package changes the container bound to the
+        module-level `name` (item store, mutating method, global rebinding):
+        its literal is then not its value."""
+        cache = self.__dict__.setdefault('_mut', {})
+        key = (module.name, name)
+        if key not in cache:
+            hit = False
+            for m in self.db.modules.values():
+                for n in ast.walk(m.tree):
+                    if isinstance(n, ast.Global) and name in n.names:
+                        hit = True
+                    elif isinstance(n, ast.Subscript) and isinstance(
+                            n.ctx, (ast.Store, ast.Del)) and isinstance(
+                                n.value, ast.Name) and n.value.id == name:
+                        hit = True
+                    elif isinstance(n, ast.Call) and isinstance(
+                            n.func, ast.Attribute) and isinstance(
+                                n.func.value, ast.Name) and \
+                            n.func.value.id == name and n.func.attr in (
+                                'append', 'add', 'update', 'extend',
+                                'insert', 'pop', 'remove', 'clear',
+                                'setdefault', 'popitem', 'discard', 'sort',
+                                'reverse'):
+                        hit = True
+                    elif isinstance(n, ast.Call) and any(
+                            isinstance(a, ast.Name) and a.id == name
+                            for a in n.args):
+                        hit = True      # handed to code that may fill it
+            cache[key] = hit
+        return cache[key]
+
+    def _literal(self, e, module=None, depth=0):
+        """Constant term of a literal module/class level value (names of
+        in-repo functions and classes inside it are resolved)."""
+        if depth > 4:
+            return None
         if isinstance(e, ast.Constant):
             return const(e.value)
         if isinstance(e, (ast.Tuple, ast.List, ast.Set)):
-            items = [self._literal(x) for x in e.elts]
+            items = [self._literal(x, module, depth + 1) for x in e.elts]
             if all(i is not None for i in items):
                 return ({ast.Tuple: 'tuple', ast.List: 'list',
                          ast.Set: 'set'}[type(e)], tuple(items))
+            return None
+        if isinstance(e, ast.Dict) and all(k is not None for k in e.keys):
+            ks = [self._literal(k, module, depth + 1) for k in e.keys]
+            vs = [self._literal(v, module, depth + 1) for v in e.values]
+            if all(x is not None for x in ks + vs):
+                return ('dict', tuple(zip(ks, vs)))
+            return None
         if isinstance(e, ast.UnaryOp) and isinstance(e.op, ast.USub):
-            v = self._literal(e.operand)
-            if v is not None and is_const(v):
+            v = self._literal(e.operand, module, depth + 1)
+            if v is not None and is_const(v) and isinstance(
+                    v[1], (int, float)):
                 return const(-v[1])
+            return None
+        if isinstance(e, (ast.Name, ast.Attribute)) and module is not None:
+            try:
+                ent = self.db.resolve_dotted(module, e)
+            except AnalysisError:
+                return None
+            ent = self.db.deref(ent) if isinstance(ent, tuple) else ent
+            if isinstance(ent, FuncInfo):
+                return ('fn', ent, None)
+            if isinstance(ent, ClassInfo):
+                return ('cls', ent)
+            if isinstance(ent, External):
+                return ('ext', ent.dotted)
+            if isinstance(ent, tuple) and ent[0] == 'value':
+                return self._literal(ent[1], ent[2], depth + 1)
         return None
 
     def _property(self, b, attr, fi, node, which='getter'):
@@ -1538,7 +1639,7 @@ class PathSum(object):
                 if isinstance(ent, ClassInfo):
                     return [(st, ('cls', ent))]
                 if isinstance(ent, tuple) and ent[0] == 'value':
-                    v = self._literal(ent[1])
+                    v = self._literal(ent[1], ent[2])
                     if v is not None:
                         return [(st, v)]
             return [(st, ('attr', b, attr))]
@@ -1570,7 +1671,7 @@ class PathSum(object):
                                 attr in k.attrs
                                 for k in self.db.subclasses(ci)))):
                     # class-level constant nothing stores on instances
-                    v = self._literal(ent[1])
+                    v = self._literal(ent[1], ent[2])
                     if v is not None:
                         return [(st, v)]
         return [(st, ('attr', b, attr))]
@@ -1725,6 +1826,10 @@ class PathSum(object):
                     return [(st, v)]
             if all(is_const(a) for a, _ in recv[1]) and is_const(args[0]):
                 return [(st, args[1] if len(args) > 1 else NONE)]
+            if self._table_lookup(recv, args[0]):
+                default = args[1] if len(args) > 1 else NONE
+                return [(s2, default if v is None else v) for s2, v in
+                        self.lookup(recv, args[0], st, node)]
         if recv[0] == 'dict' and name in ('items', 'keys', 'values') and \
                 not args:
             if name == 'items':
